@@ -40,6 +40,11 @@ Definition query_parts (f : flavour) (a b : list Z) (i : Z) : option (Z * Z) :=
         end
     end.
 
+(** run-length encoded bitmaps (the compact argument form of the large-bitmap ops): [(count, word)] runs,
+    expanded the same way on the Go side *)
+Definition expand_rle (runs : list (Z * Z)) : list Z :=
+  concat (map (fun p => repeat (snd p) (Z.to_nat (fst p))) runs).
+
 (** * histories *)
 Record bmst : Type := { st_ws : list Z; st_i64 : list Z; st_i64t : list Z; st_i128 : list Z }.
 
